@@ -405,6 +405,42 @@ pub fn threads_child(args: &[String]) -> i32 {
     0
 }
 
+/// One validation of a request dated `offset` seconds from the server time, against a key provider that really takes
+/// `sleep_ms` of wall-clock time to answer. Returns the outcome label.
+pub fn slow_provider_outcome(offset: i64, sleep_ms: u64, carrier: Carrier) -> String {
+    use scratchstack_aws_signature::GetSigningKeyResponse;
+    let now = e2e::base_instant();
+    let mut plan = e2e::base_plan(carrier);
+    plan.instant = refmodel::Instant::new(now.secs + offset, 0);
+    plan.date_text = plan.instant.compact();
+    e2e::rekey(&mut plan, e2e::SECRET, "us-east-1", "service");
+    let wire = WireReq::from_wire(&build(&plan).wire);
+    let cfg = Cfg::basic(now);
+    let mut provider = Provider::new(Box::new(move |r| {
+        if sleep_ms > 0 {
+            std::thread::sleep(std::time::Duration::from_millis(sleep_ms));
+        }
+        let c = refmodel::hmac::chain(e2e::SECRET.as_bytes(), &r.request_date().format("%Y%m%d").to_string(), r.region().as_bytes(), r.service().as_bytes());
+        Ok(GetSigningKeyResponse::builder().signing_key(env::ksigning_from_bytes(c.ksigning)).build().unwrap())
+    }));
+    digest(&sut::validate(&wire, &cfg, &mut provider))
+}
+
+pub fn replay_slow(case: &serde_json::Value) -> i32 {
+    let offset = case["offset_s"].as_i64().unwrap_or(0);
+    let ms = case["slow_provider_ms"].as_u64().unwrap_or(0);
+    let carrier = if case["carrier"] == "Query" { Carrier::Query } else { Carrier::Header };
+    let fast = slow_provider_outcome(offset, 0, carrier);
+    let slow = slow_provider_outcome(offset, ms, carrier);
+    println!("request dated {} s from the server time: provider answering at once -> {}; provider taking {} ms -> {}", offset, fast, ms, slow);
+    if fast == slow {
+        println!("agrees");
+        0
+    } else {
+        1
+    }
+}
+
 /// Number of symbols of the requirement-object operation alphabet: 3 validations + 3 categories x {add, remove} x 2 spellings.
 pub const REQ_OP_SYMBOLS: u64 = 15;
 
@@ -618,6 +654,44 @@ pub fn run(ctx: &Ctx) -> Report {
             }
         });
         st = st.merge(part);
+    }
+
+    // ---- 7. real time is not an input: requests on and next to both edges of the freshness window, validated against
+    //         a provider that takes 0 / 1.1 / 2.1 s (thorough also 3.1 s) of wall-clock time to answer; the outcome is
+    //         what it is with the provider that answers at once
+    {
+        use rayon::prelude::*;
+        let sleeps: Vec<u64> = if thorough { vec![1100, 2100, 3100] } else { vec![1100, 2100] };
+        let offsets = [-900i64, -899, -898, -897, 0, 897, 898, 899, 900, -901, 901];
+        let mut jobs: Vec<(i64, u64, Carrier)> = Vec::new();
+        for o in offsets {
+            for ms in &sleeps {
+                for c in [Carrier::Header, Carrier::Query] {
+                    jobs.push((o, *ms, c));
+                }
+            }
+        }
+        let pool = rayon::ThreadPoolBuilder::new().num_threads(jobs.len()).build().unwrap();
+        let results: Vec<(i64, u64, Carrier, String, String)> = pool.install(|| {
+            jobs.par_iter().map(|(o, ms, c)| (*o, *ms, *c, slow_provider_outcome(*o, 0, *c), slow_provider_outcome(*o, *ms, *c))).collect()
+        });
+        for (k, (o, ms, c, fast, slow)) in results.into_iter().enumerate() {
+            st.evaluations += 1;
+            st.validated += 1;
+            st.transitions += 2;
+            st.nontrivial(&("slow-provider", o, ms, c));
+            st.outcome("slow-provider");
+            if fast != slow {
+                st.violation(Violation {
+                    index: 800_000 + k as u64,
+                    what: "outcome-depends-on-how-long-the-key-provider-took".into(),
+                    case: json!({"slow_provider_ms": ms, "offset_s": o, "carrier": format!("{:?}", c)}),
+                    expected: fast,
+                    observed: slow,
+                    known: None,
+                });
+            }
+        }
     }
 
     // ---- 1. histories: every sequence of <= L validations in this process
@@ -959,7 +1033,7 @@ pub fn run(ctx: &Ctx) -> Report {
     Report {
         stats: st,
         rule: format!(
-            "corpus of {} requests (one per stage of the documented order on each carrier, valid, wrong signature, with and without a session token; folded form, S3 + token, same credential under three tokens, five refusals that stop half-way through an element, six requests under server clocks 10 minutes apart incl. the edges of each window, two other server configurations, four other renderings of the timestamp on both carriers, pairs of equally long bodies of 1023 .. 200 000 bytes with different content and one body under the other's signature); outcome = Ok payload digest (returned parts, body, principal) or error kind; fresh-state outcome of each element = its outcome when validated first in a fresh process. (1) every sequence of 1..{} validations in one process: each step equals its fresh-state outcome; (2) joint iteration orders of the crate's query and header maps exhausted (projection on <= 4 keys each) with identical canonical bytes and outcome, incl. the prefix rule whose error is raised inside a map iteration; (3) one fresh process per corpus element validated first{}; (4a) real threads under a controlled scheduler whose scheduling points are the crate's own log records and every provider event: 6 two-thread pairs ({}), 3 threads at preemption bound {}{}; (4b) 2-3 validation futures multiplexed on one thread with every order of polls (pending body / readiness / key future); built-in canaries (shared scratch buffer) must be caught by 4a and 4b on every run; plus a free-running barrier pass (sampling, supplementary); (5) every sequence of 1..2 (thorough 3) operations {{prevalidate, validate_signature, validate_signature on a clone}} x 3 configurations x 5 server clocks on one authenticator object (unstable API), each operation judged alone; (6) every sequence of up to 4 (thorough 5) steps over 15 symbols — validate one of three requests (everything signed, the declared headers sent but unsigned, no such headers) or add_* / remove_* (always / conditional / prefix, each name in two spellings) — on ONE VecSignedHeaderRequirements object used and edited between validations, each validation judged by the reference verifier for what is declared at that moment. states = distinct outcomes / outcome vectors",
+            "corpus of {} requests (one per stage of the documented order on each carrier, valid, wrong signature, with and without a session token; folded form, S3 + token, same credential under three tokens, five refusals that stop half-way through an element, six requests under server clocks 10 minutes apart incl. the edges of each window, two other server configurations, four other renderings of the timestamp on both carriers, pairs of equally long bodies of 1023 .. 200 000 bytes with different content and one body under the other's signature); outcome = Ok payload digest (returned parts, body, principal) or error kind; fresh-state outcome of each element = its outcome when validated first in a fresh process. (1) every sequence of 1..{} validations in one process: each step equals its fresh-state outcome; (2) joint iteration orders of the crate's query and header maps exhausted (projection on <= 4 keys each) with identical canonical bytes and outcome, incl. the prefix rule whose error is raised inside a map iteration; (3) one fresh process per corpus element validated first{}; (4a) real threads under a controlled scheduler whose scheduling points are the crate's own log records and every provider event: 6 two-thread pairs ({}), 3 threads at preemption bound {}{}; (4b) 2-3 validation futures multiplexed on one thread with every order of polls (pending body / readiness / key future); built-in canaries (shared scratch buffer) must be caught by 4a and 4b on every run; plus a free-running barrier pass (sampling, supplementary); (5) every sequence of 1..2 (thorough 3) operations {{prevalidate, validate_signature, validate_signature on a clone}} x 3 configurations x 5 server clocks on one authenticator object (unstable API), each operation judged alone; (6) every sequence of up to 4 (thorough 5) steps over 15 symbols — validate one of three requests (everything signed, the declared headers sent but unsigned, no such headers) or add_* / remove_* (always / conditional / prefix, each name in two spellings) — on ONE VecSignedHeaderRequirements object used and edited between validations, each validation judged by the reference verifier for what is declared at that moment; (7) requests on and next to both edges of the freshness window (11 offsets) on both carriers against a key provider that takes 1.1 / 2.1 (thorough 3.1) seconds of wall-clock time: same outcome as with one that answers at once. states = distinct outcomes / outcome vectors",
             n, l, if thorough { " (4 rounds)" } else { "" }, if thorough { "all interleavings" } else { "all schedules with <= 3 preemptions" }, if thorough { 3 } else { 2 }, if thorough { ", 4 threads at bound 2" } else { "" }
         ),
         bounds: json!({"corpus": n, "history_length": l}),
